@@ -31,9 +31,9 @@ EXTENDS JValues, Json, IOUtils
 
 Cases == JsonDeserialize(IOEnv.CASES_FILE)
 
-VARIABLES cid, did, phase, S, todo, rootcx, result
+VARIABLES cid, did, phase, S, todo, rootcx, result, npass, first
 
-vars == <<cid, did, phase, S, todo, rootcx, result>>
+vars == <<cid, did, phase, S, todo, rootcx, result, npass, first>>
 
 Has(r, f) == f \in DOMAIN r
 Fld(r, f, d) == IF f \in DOMAIN r THEN r[f] ELSE d
@@ -924,6 +924,8 @@ Init ==
     /\ todo = Cases[cid].tpls[Cases[cid].main].body
     /\ rootcx = 1
     /\ result = <<>>
+    /\ npass = 1
+    /\ first = <<>>
 
 \* one top-level statement of the template currently being rendered at the root
 StepTop ==
@@ -931,7 +933,7 @@ StepTop ==
     /\ todo # <<>> /\ S.err = ""
     /\ S' = Ex(Head(todo), S, RootEnv(S, rootcx, S.cx[rootcx].tpl, 0))
     /\ todo' = Tail(todo)
-    /\ UNCHANGED <<cid, did, phase, rootcx, result>>
+    /\ UNCHANGED <<cid, did, phase, rootcx, result, npass, first>>
 
 \* the template extended another one: continue with the parent's root, same context
 StepParent ==
@@ -941,7 +943,7 @@ StepParent ==
        /\ S' = [S EXCEPT !.cx[rootcx].par = "", !.cx[rootcx].tpl = p,
                           !.fr[S.cx[rootcx].vars] = @ @@ PreMap(Tpls[p], "pre")]
        /\ todo' = Tpls[p].body
-    /\ UNCHANGED <<cid, did, phase, rootcx, result>>
+    /\ UNCHANGED <<cid, did, phase, rootcx, result, npass, first>>
 
 Observable ==
     [id |-> Case.id, d |-> did, err |-> S.err,
@@ -951,12 +953,27 @@ Observable ==
 Finish ==
     /\ phase = "render"
     /\ S.err # "" \/ (todo = <<>> /\ S.cx[rootcx].par = "")
-    /\ phase' = "done"
+    /\ phase' = IF npass = 1 /\ Fld(Cfg, "rerender", FALSE) THEN "again" ELSE "done"
     /\ result' = Observable
-    /\ PrintT(ToJson(Observable))
-    /\ UNCHANGED <<cid, did, S, todo, rootcx>>
+    /\ first' = IF npass = 1 THEN [err |-> Observable.err, out |-> Observable.out] ELSE first
+    /\ IF npass = 1 THEN PrintT(ToJson(Observable)) ELSE TRUE
+    /\ UNCHANGED <<cid, did, S, todo, rootcx, npass>>
 
-Next == StepTop \/ StepParent \/ Finish
+\* C29: render the same template on the same data again in the same engine: everything
+\* starts afresh except what the engine keeps between renders (the cached default modules)
+Again ==
+    /\ phase = "again"
+    /\ phase' = "render"
+    /\ npass' = 2
+    /\ LET s0 == NewFrame([S EXCEPT !.out = <<>>, !.log = <<>>, !.err = "", !.flow = ""], PreMap(Tpls[Case.main], "pre"))
+           s1 == NewCtx(s0, [vars |-> LastFrame(s0), parent |-> Data @@ Globals, exported |-> {}, blocks |-> EmptyMap,
+                             par |-> "", tpl |-> Case.main, chain |-> <<>>])
+       IN /\ S' = RegisterBlocks(s1, LastCtx(s1), Case.main)
+          /\ rootcx' = LastCtx(s1)
+    /\ todo' = Tpls[Case.main].body
+    /\ UNCHANGED <<cid, did, result, first>>
+
+Next == StepTop \/ StepParent \/ Finish \/ Again
 
 Spec == Init /\ [][Next]_vars
 
@@ -980,6 +997,9 @@ C15_TemplateTextVerbatim == Cfg.all_auto => \A i \in 1..Len(S.out) : S.out[i].o 
 \* without autoescaping anywhere nothing is ever escaped unless the program asks for it
 C16_OffNeverEscapes ==
     (Cfg.none_auto /\ Case.neutral) => \A i \in 1..Len(S.out) : S.out[i].e = 0
+
+\* C29: a second render in the same engine gives the same result as the first
+C29_Repeatable == (phase = "done" /\ npass = 2) => [err |-> result.err, out |-> result.out] = first
 
 \* C04: in every context the stack of definitions of a block lists, most derived first, exactly
 \* the templates of the inheritance chain (in chain order) that define the block
